@@ -24,8 +24,15 @@ type Scenario struct {
 	Judge func(h vsched.Harness, x *vsched.Exec) (outcome, class, desc string)
 	// Bound is the deviation bound to complete in the quick and in the thorough tier.
 	QuickBound, ThoroughBound int
-	MaxSteps                  int
-	NoCache                   bool
+	// SoloBelow: bounds < SoloBelow are explored by ONE shard alone (the scenario's index picks it)
+	// instead of being split by subtree: the second-level split makes every shard repeat the root
+	// and first-level executions, which for a search of a few dozen executions is all of it.
+	SoloBelow int
+	// QuickEnv/ThoroughEnv > 0: injected faults (non-default environment answers) get a budget of
+	// their own instead of sharing the deviation bound with preemptions.
+	QuickEnv, ThoroughEnv int
+	MaxSteps              int
+	NoCache               bool
 	// Share of the check's time budget (relative weight, default 1).
 	Weight float64
 }
@@ -35,6 +42,7 @@ type Case struct {
 	Scenario string `json:"scenario"`
 	Choices  []int  `json:"choices"`
 	Bound    int    `json:"bound"`
+	EnvBound int    `json:"env_bound,omitempty"`
 }
 
 func traceSig(x *vsched.Exec, outcome string) string {
@@ -71,7 +79,7 @@ func run(t *testing.T, c *vlib.Ctx, scenarios []Scenario) {
 			if sc.Name != cs.Scenario {
 				continue
 			}
-			e := &vsched.Explorer{New: sc.New, Bound: cs.Bound, NoCache: true, MaxSteps: sc.MaxSteps}
+			e := &vsched.Explorer{New: sc.New, Bound: cs.Bound, EnvBound: cs.EnvBound, NoCache: true, MaxSteps: sc.MaxSteps}
 			x, h := e.RunOne(cs.Choices, true)
 			outcome, class, desc := judgeAll(sc, h, x)
 			for _, l := range x.Trace {
@@ -86,40 +94,54 @@ func run(t *testing.T, c *vlib.Ctx, scenarios []Scenario) {
 		}
 		return
 	}
+	only := os.Getenv("VERIF_SCENARIO")
+	// the time budget is shared (by weight) among the scenarios that run in this tier
 	totalW := 0.0
 	for i := range scenarios {
-		if scenarios[i].Weight == 0 {
-			scenarios[i].Weight = 1
-		}
-		totalW += scenarios[i].Weight
-	}
-	only := os.Getenv("VERIF_SCENARIO")
-	start := vsched.RealNow()
-	budget := c.BudgetSeconds()
-	var summary []string
-	for i := range scenarios {
 		sc := &scenarios[i]
-		if only != "" && only != sc.Name {
+		if (only != "" && only != sc.Name) || (!c.Thorough() && sc.QuickBound < 0) {
+			sc.Weight = -1 // does not run
 			continue
 		}
-		if !c.Thorough() && sc.QuickBound < 0 {
-			continue // thorough-only scenario
+		if sc.Weight == 0 {
+			sc.Weight = 1
+		}
+		totalW += sc.Weight
+	}
+	start := vsched.RealNow()
+	budget := c.BudgetSeconds()
+	for i := range scenarios {
+		sc := &scenarios[i]
+		if sc.Weight < 0 {
+			continue // another scenario was selected, or thorough-only
 		}
 		deadline := start.Add(time.Duration(budget * 0.9 * sumW(scenarios[:i+1]) / totalW * float64(time.Second)))
-		summary = append(summary, runScenario(c, sc, deadline))
+		// one note per scenario; when shards report different lines (a bound explored by its owning
+		// shard alone) the merge keeps the most complete one
+		if line := runScenario(c, sc, i, deadline); line != "" {
+			c.Note("scenario "+sc.Name, line)
+		}
 	}
-	c.Note("scenarios", summary)
+}
+
+func envNote(n int) string {
+	if n > 0 {
+		return fmt.Sprintf(" (+%d injected faults)", n)
+	}
+	return ""
 }
 
 func sumW(s []Scenario) float64 {
 	w := 0.0
 	for i := range s {
-		w += s[i].Weight
+		if s[i].Weight > 0 {
+			w += s[i].Weight
+		}
 	}
 	return w
 }
 
-func runScenario(c *vlib.Ctx, sc *Scenario, deadline time.Time) string {
+func runScenario(c *vlib.Ctx, sc *Scenario, idx int, deadline time.Time) string {
 	// Determinism gate: the default schedule and the first alternative schedule, each twice, must
 	// give identical traces and outcomes; otherwise the scenario is reported incomplete (a harness
 	// defect, never a violation).
@@ -151,25 +173,33 @@ func runScenario(c *vlib.Ctx, sc *Scenario, deadline time.Time) string {
 			} else if s != sig {
 				c.Incomplete(fmt.Sprintf("scenario %s failed the determinism gate (schedule %v replayed differently); not explored", sc.Name, prefix))
 				c.Note("gate_"+sc.Name, []string{sig, s})
-				return sc.Name + ": determinism gate failed"
+				return "determinism gate failed"
 			}
 			if x.Diverged != "" {
 				c.Incomplete(fmt.Sprintf("scenario %s: %s", sc.Name, x.Diverged))
-				return sc.Name + ": replay divergence in gate"
+				return "replay divergence in gate"
 			}
 		}
 	}
-	maxBound := sc.QuickBound
+	maxBound, envBound := sc.QuickBound, sc.QuickEnv
 	if c.Thorough() {
-		maxBound = sc.ThoroughBound
+		maxBound, envBound = sc.ThoroughBound, sc.ThoroughEnv
 	}
 	completed := -1
 	var res []string
 	for b := 0; b <= maxBound; b++ {
 		outcomes := map[string]int64{}
 		nViol := 0
-		e := &vsched.Explorer{New: sc.New, Bound: b, NoCache: sc.NoCache || os.Getenv("VERIF_NOCACHE") != "", MaxSteps: sc.MaxSteps,
-			Deadline: deadline, Shard: c.Shard(), NShards: c.NShards()}
+		shard, nshards := c.Shard(), c.NShards()
+		if b < sc.SoloBelow && nshards > 1 {
+			if idx%nshards != shard {
+				completed = b // explored by the owning shard
+				continue
+			}
+			shard, nshards = 0, 1
+		}
+		e := &vsched.Explorer{New: sc.New, Bound: b, EnvBound: envBound, NoCache: sc.NoCache || os.Getenv("VERIF_NOCACHE") != "", MaxSteps: sc.MaxSteps,
+			Deadline: deadline, Shard: shard, NShards: nshards}
 		e.Check = func(h vsched.Harness, x *vsched.Exec) {
 			c.Eval(1)
 			c.Trans(x.Steps)
@@ -200,9 +230,9 @@ func runScenario(c *vlib.Ctx, sc *Scenario, deadline time.Time) string {
 				if nViol > 3 {
 					return
 				}
-				cs := Case{Scenario: sc.Name, Choices: x.Choices, Bound: b}
+				cs := Case{Scenario: sc.Name, Choices: x.Choices, Bound: b, EnvBound: envBound}
 				// re-execute before believing it
-				re := &vsched.Explorer{New: sc.New, Bound: b, NoCache: true, MaxSteps: sc.MaxSteps}
+				re := &vsched.Explorer{New: sc.New, Bound: b, EnvBound: envBound, NoCache: true, MaxSteps: sc.MaxSteps}
 				for k := 0; k < 3; k++ {
 					x2, h2 := re.RunOne(x.Choices, false)
 					_, class2, _ := judgeAll(sc, h2, x2)
@@ -221,7 +251,7 @@ func runScenario(c *vlib.Ctx, sc *Scenario, deadline time.Time) string {
 		for k, v := range outcomes {
 			c.OutcomeN(sc.Name+": "+k, v)
 		}
-		r := fmt.Sprintf("bound %d: %d executions, %d steps, %d distinct outcomes, cache %d states/%d hits", b, e.Execs, e.StepsTotal, len(outcomes), e.CacheSize, e.CacheHits)
+		r := fmt.Sprintf("bound %d"+envNote(envBound)+": %d executions, %d steps, %d distinct outcomes, cache %d states/%d hits", b, e.Execs, e.StepsTotal, len(outcomes), e.CacheSize, e.CacheHits)
 		if e.Capped != "" {
 			r += " (CAPPED: " + e.Capped + ")"
 			res = append(res, r)
@@ -234,5 +264,8 @@ func runScenario(c *vlib.Ctx, sc *Scenario, deadline time.Time) string {
 			break // the smallest bound with a counterexample is the one to report
 		}
 	}
-	return fmt.Sprintf("%s: completed bound %d; %s", sc.Name, completed, strings.Join(res, "; "))
+	if len(res) == 0 {
+		return "" // explored by the owning shard
+	}
+	return fmt.Sprintf("completed bound %d; %s", completed, strings.Join(res, "; "))
 }
